@@ -45,6 +45,14 @@ class Config:
                 "write_concern": self.write_concern}
 
 
+def _has_dot(v):
+    if isinstance(v, dict):
+        return any((isinstance(k, str) and "." in k) or _has_dot(x) for k, x in v.items())
+    if isinstance(v, list):
+        return any(_has_dot(x) for x in v)
+    return False
+
+
 class Violation(Exception):
     def __init__(self, kind_, detail):
         super().__init__("%s: %s" % (kind_, detail))
@@ -239,6 +247,10 @@ class Ref:
                 self.ext_after[r] = True
             self.revalidate()
             return None, info
+        if t == "construct":
+            data = model.ref_value(ev[2])
+            bad = model._find_bad(data) or (self.attr and _has_dot(data))
+            return (Expect("reject") if bad else Expect("ok", None)), info
         if t == "setfilename":
             o, r = ev[1], ev[2]
             self.detach_under(o, ())
@@ -421,6 +433,12 @@ class World:
                     get_at(c, path[:-1])[path[-1]] = copy.deepcopy(value)
                 res.ext_write(c)
             return None
+        if t == "construct":
+            try:
+                self.resources[ev[1]].make(self.cfg.clsname, data=model.resolve(ev[2], self.mk_synced))
+            except Exception as e:  # noqa: BLE001
+                return ("exc", e)
+            return ("ok", None)
         try:
             if t == "setfilename":
                 self.objects[ev[1]].filename = self.resources[ev[2]].path
@@ -535,6 +553,10 @@ def execute(cfg, history, oracles, hooks=None, keep_world=False, alphabet=None):
                     why = check_result(exp, outcome, info.get("node_before"))
                     if why:
                         v.append(("result", "%r: %s" % (ev, why)))
+                elif ev[0] == "construct" and ("result" in oracles or "reject" in oracles):
+                    why = check_result(exp, outcome)
+                    if why:
+                        v.append(("reject" if exp.mode == "reject" else "result", "%r: %s" % (ev, why)))
                 elif ev[0] == "op" and exp.mode == "reject" and "reject" in oracles:
                     why = check_result(exp, outcome)
                     if why:
